@@ -81,6 +81,13 @@ Definition required_spec (ver : bytes) (j : json) : list bytes :=
       then match s_authorised_via j with Some u => server_of u | None => [] end
       else []).
 
+(* the instant at which the signing keys must have been valid: origin_server_ts *)
+Definition s_ts (j : json) : N :=
+  match jget (bs "origin_server_ts") j with
+  | Some (JNum raw) => match parse_dec raw with Some n => n | None => 0 end
+  | _ => 0
+  end.
+
 (* the validity rule every verification must use *)
 Definition required_rule_strict (ver : bytes) : bool := spec_strict_validity ver.
 
